@@ -14,15 +14,33 @@ detected by the check of its own property.
 """
 import argparse, fcntl, json, os, re, subprocess, sys
 ap=argparse.ArgumentParser(); ap.add_argument('ids',nargs='*')
-a=ap.parse_args(); a.root='/tmp/wt-seeddetect'
+ap.add_argument('--root',default='/tmp/wt-seeddetect',help='scratch worktree to use (several instances may run side by side with different roots)')
+ap.add_argument('--part',default='',help='i/n: process only the i-th of n slices of the seed list')
+ap.add_argument('--index-only',action='store_true',help='only rewrite INDEX.md from the meta.json files')
+a=ap.parse_args()
 env=dict(os.environ,GOFLAGS='-mod=mod',GOPROXY='off',GOSUMDB='off',GOTOOLCHAIN='local')
 def sh(cmd,cwd=None):
     p=subprocess.run(cmd,shell=True,cwd=cwd,env=env,stdout=subprocess.PIPE,stderr=subprocess.STDOUT,text=True)
     return p.returncode,p.stdout
-lock=open('/tmp/seedcheck.repo.lock','w'); fcntl.flock(lock,fcntl.LOCK_EX)
-rc,out=sh('./run.sh C01 quick >/dev/null 2>&1; true','/verif')   # make sure bin/bsvet is current
 seeds=sorted(d for d in os.listdir('/verif/seeded') if os.path.isfile(f'/verif/seeded/{d}/patch.diff'))
+def write_index():
+    with open('/verif/seeded/INDEX.md','w') as f:
+        f.write('# Seeded changes (from sub-agents that saw only the property text)\n\nEach directory holds patch.diff, the demonstration test, README.txt (what it needs to manifest) and meta.json (what was confirmed in a scratch worktree; which rules fire). Regenerate with `python3 tools/seeddetect.py`.\n\n| seed | detected by its property\'s check | rules of that property | other properties that also fire |\n|---|---|---|---|\n')
+        for sid in seeds:
+            mp=f'/verif/seeded/{sid}/meta.json'
+            if not os.path.exists(mp): continue
+            m=json.load(open(mp)); prop=sid.split('-')[0]; res=m.get('checks',{})
+            res={k:(v if isinstance(v,list) else v.get('rules',[])+(['undecided'] if v.get('undecided') else [])) for k,v in res.items()}
+            res={k:v for k,v in res.items() if v}
+            if m.get('applies') is False:
+                f.write('| %s | patch no longer applies |  |  |\n'%sid); continue
+            f.write('| %s | %s | %s | %s |\n'%(sid,'yes' if prop in res else ('other property only' if res else 'NO'),', '.join(res.get(prop,[])),'; '.join(f'{k}: {",".join(v)}' for k,v in sorted(res.items()) if k!=prop)))
+if a.index_only:
+    write_index(); sys.exit(0)
 if a.ids: seeds=[s for s in seeds if s in a.ids]
+if a.part:
+    i,n=map(int,a.part.split('/')); seeds=seeds[i::n]
+lock=open('/tmp/seeddetect.%s.lock'%os.path.basename(a.root),'w'); fcntl.flock(lock,fcntl.LOCK_EX)
 sh('git -C /repo worktree remove --force '+a.root); rc,out=sh('git -C /repo worktree add --detach '+a.root+' HEAD'); assert rc==0,out
 rows=[]; missed=[]
 for sid in seeds:
@@ -74,7 +92,10 @@ for sid in seeds:
     print(sid,res,flush=True)
 sh('git -C /repo worktree remove --force '+a.root)
 fcntl.flock(lock,fcntl.LOCK_UN)
-if not a.ids:
+if not a.ids and not a.part:
+    seeds=sorted(d for d in os.listdir('/verif/seeded') if os.path.isfile(f'/verif/seeded/{d}/patch.diff'))
+    write_index()
+if False:
     with open('/verif/seeded/INDEX.md','w') as f:
         f.write('# Seeded changes (from sub-agents that saw only the property text)\n\nEach directory holds patch.diff, the demonstration test, README.txt (what it needs to manifest) and meta.json (what was confirmed in a scratch worktree; which rules fire). Regenerate with `python3 tools/seeddetect.py`.\n\n| seed | detected by its property\'s check | rules of that property | other properties that also fire |\n|---|---|---|---|\n')
         for r in rows: f.write('| %s | %s | %s | %s |\n'%r)
